@@ -2,6 +2,7 @@
   C15 — min-mode and max-mode bracket every roll.  Property theorems only.
 -/
 import DS.Proofs.DiceLemmas
+import DS.Props.C04
 
 namespace DS.Props.C15
 open DS.Roll DS.Rng DS.Proofs
@@ -197,18 +198,97 @@ theorem monotone_expr (e : MExpr) (emin erand emax : Nat → Int)
     simp only [MExpr.eval]
     exact ⟨Int.mul_le_mul_of_nonneg_left ih.1 hc, Int.mul_le_mul_of_nonneg_left ih.2 hc⟩
 
-/-- KNOWN FINDING (kept as a Prop so the full statement stays visible): the CoC *penalty* die is not
-    bracketed from below by its min-mode value. -/
-def coc_penalty_bracket_full : Prop :=
-  ∀ (n : Int) (ws : List Nat) (v : Int) (t : String) (rest : List Nat),
-    rollCoC false n 0 ws = some ((v, t), rest) →
-    ∀ vmin tmin, rollCoC false n (-1) ws = some ((vmin, tmin), ws) → vmin ≤ v
+/-! ### CoC bonus / penalty dice (after the repair "fix: a CoC tens die takes its 0 face in min mode") -/
 
-/-- witness: percentile word giving D100 = 5, penalty die showing 10 (tens digit 0): result 5 < 11 -/
-theorem KF_coc_penalty_min_witness : ¬ coc_penalty_bracket_full := by
-  intro h
-  have := h 1 [4, 9] 5 "(D100=5,惩罚0)" [] (by decide) 11 "(D100=1,惩罚1)" (by decide)
-  omega
+theorem pct_range (t u : Int) (ht0 : 0 ≤ t) (ht9 : t ≤ 9) (hu0 : 0 ≤ u) (hu9 : u ≤ 9) :
+    1 ≤ pct t u ∧ pct t u ≤ 100 := by
+  unfold pct
+  by_cases h : t = 0
+  · by_cases hu : u = 0
+    · simp [h, hu]
+    · simp [h, hu]; omega
+  · have : (t == 0) = false := by simp [h]
+    simp [this]; omega
+
+theorem fold_imin_range (f : Int → Int) (hf : ∀ n, 1 ≤ n ∧ n ≤ 10 → 1 ≤ f n ∧ f n ≤ 100) :
+    ∀ (dice : List Int) (v0 : Int), (∀ d ∈ dice, 1 ≤ d ∧ d ≤ 10) → 1 ≤ v0 ∧ v0 ≤ 100 →
+      1 ≤ dice.foldl (fun v n => imin v (f n)) v0 ∧ dice.foldl (fun v n => imin v (f n)) v0 ≤ 100 := by
+  intro dice
+  induction dice with
+  | nil => intro v0 _ h; simpa using h
+  | cons n ds ih =>
+    intro v0 hd h
+    simp only [List.foldl_cons]
+    apply ih
+    · intro d hd'; exact hd d (by simp [hd'])
+    · have := hf n (hd n (by simp))
+      unfold imin; split <;> omega
+
+theorem fold_imax_range (f : Int → Int) (hf : ∀ n, 1 ≤ n ∧ n ≤ 10 → 1 ≤ f n ∧ f n ≤ 100) :
+    ∀ (dice : List Int) (v0 : Int), (∀ d ∈ dice, 1 ≤ d ∧ d ≤ 10) → 1 ≤ v0 ∧ v0 ≤ 100 →
+      1 ≤ dice.foldl (fun v n => imax v (f n)) v0 ∧ dice.foldl (fun v n => imax v (f n)) v0 ≤ 100 := by
+  intro dice
+  induction dice with
+  | nil => intro v0 _ h; simpa using h
+  | cons n ds ih =>
+    intro v0 hd h
+    simp only [List.foldl_cons]
+    apply ih
+    · intro d hd'; exact hd d (by simp [hd'])
+    · have := hf n (hd n (by simp))
+      unfold imax; split <;> omega
+
+/-- the tens-dice loop in min mode: every die is the 0 face, nothing is drawn -/
+theorem cocLoop_min : ∀ (k : Nat) (mn mx : Int) (e : Bool) (ws : List Nat),
+    cocLoop (-1) k mn mx e ws = some ((List.replicate k "0", mn, mx, e || decide (0 < k)), ws) := by
+  intro k
+  induction k with
+  | zero => intro mn mx e ws; simp [cocLoop]
+  | succ k ih =>
+    intro mn mx e ws
+    simp [cocLoop, roll, cocFace, ih, List.replicate_succ]
+
+/-- the tens-dice loop in max mode: every die shows 10, nothing is drawn -/
+theorem cocLoop_max : ∀ (k : Nat) (mn mx : Int) (e : Bool) (ws : List Nat),
+    cocLoop 1 k mn mx e ws = some ((List.replicate k "0", mn, mx, e || decide (0 < k)), ws) := by
+  intro k
+  induction k with
+  | zero => intro mn mx e ws; simp [cocLoop]
+  | succ k ih =>
+    intro mn mx e ws
+    simp [cocLoop, roll, cocFace, ih, List.replicate_succ]
+
+/-- CoC bonus and penalty dice are bracketed: min mode gives 1, max mode gives 100, neither draws from the
+    generator, and every random outcome lies between them. -/
+theorem coc_bracket (isBonus : Bool) (n : Int) (ws : List Nat) (hws : Words64 ws)
+    (v : Int) (t : String) (rest : List Nat) (h : rollCoC isBonus n 0 ws = some ((v, t), rest)) :
+    (rollCoC isBonus n (-1) ws).map (fun r => (r.1.1, r.2)) = some (1, ws) ∧
+    (rollCoC isBonus n 1 ws).map (fun r => (r.1.1, r.2)) = some (100, ws) ∧ 1 ≤ v ∧ v ≤ 100 := by
+  refine ⟨?_, ?_, ?_⟩
+  · cases isBonus <;> simp [rollCoC, roll, cocLoop_min] <;> decide
+  · cases isBonus <;> simp [rollCoC, roll, cocLoop_max] <;> decide
+  · obtain ⟨d100, dice, h1, h100, _, hrange, hv, _⟩ := DS.Props.C04.coc_rule isBonus n 0 ws hws v t rest h
+    have hbase : 1 ≤ pct (d100 / 10 % 10) (d100 % 10) ∧ pct (d100 / 10 % 10) (d100 % 10) ≤ 100 :=
+      pct_range _ _ (by omega) (by omega) (by omega) (by omega)
+    have hf : ∀ m, 1 ≤ m ∧ m ≤ 10 → 1 ≤ pct (cocDigit m) (d100 % 10) ∧ pct (cocDigit m) (d100 % 10) ≤ 100 := by
+      intro m hm
+      apply pct_range
+      · unfold cocDigit; split <;> omega
+      · unfold cocDigit; split
+        · omega
+        · rename_i h10; simp at h10; omega
+      · omega
+      · omega
+    cases isBonus
+    · simp only [Bool.false_eq_true, if_false] at hv
+      rw [hv]; exact fold_imax_range _ hf dice _ hrange hbase
+    · simp only [if_true] at hv
+      rw [hv]; exact fold_imin_range _ hf dice _ hrange hbase
+
+/-- non-vacuity, and the former witness (D100 = 5, penalty die showing 10): 5 now lies above the min-mode value 1 -/
+example : rollCoC false 1 0 [4, 9] = some ((5, "(D100=5,惩罚0)"), []) := by decide
+example : rollCoC false 1 (-1) [4, 9] = some ((1, "(D100=1,惩罚0)"), [4, 9]) := by decide
+example : rollCoC true 2 1 [4, 9] = some ((100, "(D100=100,奖励0 0)"), [4, 9]) := by decide
 
 /- non-vacuity -/
 example : (rollCommon 2 6 none none 0 0 0 (-1) [1,2,3]).map (fun p => (p.1.num, p.2)) = some (2, [1,2,3]) := by decide
